@@ -1,5 +1,6 @@
 from __future__ import annotations
 import typing as t
+import copy
 from .models import JWEAlgModel, JWEEncModel, JWEZipModel
 from ..errors import UnsupportedAlgorithmError
 from ..registry import (
@@ -114,3 +115,18 @@ class JWERegistry:
 
 
 default_registry = JWERegistry()
+
+
+def construct_registry(
+        algorithms: list[str] | None = None,
+        registry: JWERegistry | None = None) -> JWERegistry:
+    if registry is None:
+        if algorithms is not None:
+            return JWERegistry(algorithms=algorithms)
+        return default_registry
+    if algorithms is not None:
+        # an explicit list of allowed algorithms applies to this call,
+        # everything else comes from the given registry
+        registry = copy.copy(registry)
+        registry.allowed = algorithms
+    return registry
